@@ -2,6 +2,7 @@ import BoboVerif.Model.Run
 import BoboVerif.Model.Decider
 import BoboVerif.Lemmas.Run
 import BoboVerif.Gen.PatternRules
+import BoboVerif.Lemmas.GenRun
 /-!
 C01 — Pattern detection follows the documented block semantics.
 
@@ -269,4 +270,21 @@ example : (process exPat (newRun "r0" exPat "a" 0) 9).1 = .ok true ∧
           (process exPat (newRun "r0" exPat "a" 0) 9).2.idx = 1 := by decide
 end example_
 
+end Bobo.Run
+
+/-! G-tie (C01): the block walk of run.py regenerated on this run is the model's `walk`. -/
+namespace Bobo.Run
+/-- `_process_loop` / `_process_not_loop` / the gate of `process` / `_move_forward` as they stand in the source now
+(Gen/RunWalk.lean) are what the model's `walk`, `process` and `moveForward` do. -/
+theorem run_source_walk_c01 {ε : Type} (n : Nat) (e : ε) (b : Block ε) (rest : List (Block ε)) (i : Nat) (r : Run ε) :
+    (walk n e (b :: rest) i r =
+      match isMatch b.preds e r.hist with
+      | none => (.raised, r)
+      | some m => applyAct n e b rest i r
+          (if b.loop then Bobo.Gen.RunWalk.loopAct m b.strict
+           else Bobo.Gen.RunWalk.notLoopAct m b.negated b.optional b.strict)) ∧
+    Bobo.Gen.RunWalk.processSteps = processStepsModel ∧
+    Bobo.Gen.RunWalk.moveForwardStmts =
+      ["self._add_event(event, block)", "self._block_index = temp_index + 1", "self._halted = self.is_complete()"] :=
+  ⟨gen_walk_eq n e b rest i r, gen_processSteps_eq, gen_moveForward_eq⟩
 end Bobo.Run
